@@ -175,6 +175,37 @@ func TestC07(t *testing.T) {
 		sc.bfs(t, rep, wd.name)
 	}
 	if !replay {
+		// ---- Engine N: the monitors of all nodes of a 3-node cluster through every scripted fault history of C05
+		nExecs := 0
+		for ai, act := range c05Actions {
+			s := c05Scn{N: 3, Action: act, Monitor: true}
+			b := 0
+			if act == "partition-0|rest-10s" || act == "restart-last-quick" || act == "leave-during-partition" || (thorough() && ai%2 == 0) {
+				b = 1
+			}
+			if b == 0 && !mine(ai) {
+				continue
+			}
+			sidx := 500000 + ai*7919
+			exploreN(rep, b, &sidx, func(prefix []int) nExec {
+				s2 := s
+				s2.Prefix = prefix
+				journal("C07 cluster %+v", s2)
+				return runC05(t, s2)
+			}, func(x nExec) {
+				nExecs++
+				rep.Transitions += len(x.Pts)
+				if x.Verdict != "" {
+					s2 := s
+					s2.Prefix = x.Choices
+					rep.Violate("cluster:"+x.Verdict+":"+act, fmt.Sprintf("action=%s: %s; deviations %v", act, x.Msg, devStr(x.Pts)), s2)
+					rep.Outcome("N-violation")
+				} else {
+					rep.Outcome("N-ok:" + act)
+				}
+			})
+		}
+		rep.Extra["cluster_executions"] = nExecs
 		runTSet(t, rep, c01TScenarios(), 2, 8000, func(v string) bool { return strings.HasPrefix(v, "event-log") || v == "concurrent-callbacks" })
 	}
 	rep.Distinct = rep.States
